@@ -90,6 +90,10 @@ type Sched struct {
 	choices  []int
 	points   []point
 	closed   map[uintptr]bool
+	// closedRefs keeps every closed channel reachable until the execution ends: the
+	// closed set is keyed by channel address, and a collected channel's address could be
+	// reused by a new channel, which would then look closed.
+	closedRefs []reflect.Value
 	failed   any
 	failedAt string
 	Log      []string
@@ -474,6 +478,7 @@ func Close(ch any) {
 			panic("close of closed channel")
 		}
 		S.closed[id] = true
+		S.closedRefs = append(S.closedRefs, v)
 	}
 	v.Close()
 }
